@@ -140,6 +140,9 @@ class kPathCover(pathmodel.AbstractPathModelDAG):
         self.edges_to_ignore = self.G.source_sink_edges.union(edges_to_ignore_internal)
 
         self.k = k
+        if not isinstance(self.k, int) or self.k <= 0:
+            utils.logger.error(f"{__name__}: k must be a positive integer, not {self.k}")
+            raise ValueError(f"k must be a positive integer, not {self.k}")
         self.subpath_constraints_coverage = subpath_constraints_coverage
         self.subpath_constraints_coverage_length = subpath_constraints_coverage_length
         self.length_attr = length_attr
